@@ -157,10 +157,11 @@ def formula_direct(adj_i, i):
     return '=' + '+'.join(terms)
 
 
-def judge(key, tags, inputs, adj, entry, model, ctx, ev=None):
+def judge(key, tags, inputs, adj, entry, model, ctx, ev=None, names=None):
     on_cycle, reaches, value = analyse(adj, entry)
     t0 = time.time()
-    got, exc = cycle_obs((ev or lib.Evaluator(model)).evaluate, cell(entry))
+    got, exc = cycle_obs((ev or lib.Evaluator(model)).evaluate,
+                         names[entry] if names else cell(entry))
     dt = time.time() - t0
     lib.clear_caches()
     nontriv = bool(adj[entry])
@@ -204,7 +205,8 @@ def entry_orders(n):
             tuple(base[1:] + base[:1]), tuple(base[2:] + base[:2])]
 
 
-def shared_evaluator_pass(key0, tags, inputs, adj, n, model, ctx):
+def shared_evaluator_pass(key0, tags, inputs, adj, n, model, ctx,
+                          cells=None, names=None):
     """ONE evaluator (and one model) serves several evaluate() calls in a
     row: an earlier cycle report or failure must not leak into a later
     evaluation (acyclic sharing is never flagged, cycles stay reported).
@@ -214,20 +216,24 @@ def shared_evaluator_pass(key0, tags, inputs, adj, n, model, ctx):
     if not any(v[1] for v in verdicts) or n < 2:
         return
     for order in entry_orders(n):
-        fresh = lib.compile_dict({cell(i): formula_direct(adj[i], i)
-                                  for i in range(n)}) \
-            if tags == ['via:direct'] else None
+        if cells is not None:
+            fresh = lib.compile_dict(cells)
+        else:
+            fresh = lib.compile_dict({cell(i): formula_direct(adj[i], i)
+                                      for i in range(n)}) \
+                if tags == ['via:direct'] else None
         m = fresh if fresh is not None else model
         ev = lib.Evaluator(m)
         okey = ''.join(map(str, order))
         for pos, entry in enumerate(order):
             if pos == 0:
                 # already judged with a fresh evaluator; just execute it
-                cycle_obs(ev.evaluate, cell(entry))
+                cycle_obs(ev.evaluate,
+                          names[entry] if names else cell(entry))
                 continue
             judge('%s/shared=%s/pos=%d/entry=%d' % (key0, okey, pos, entry),
                   tags + ['evaluator:shared'],
-                  dict(inputs, entry=entry), adj, entry, m, ctx, ev)
+                  dict(inputs, entry=entry), adj, entry, m, ctx, ev, names)
 
 
 def adj_from_code(code, n, base):
@@ -257,6 +263,116 @@ def run_graph(kind, n, base, code, ctx):
         judge('%s/entry=%d' % (key0, entry), ['via:direct'],
               dict(inputs, entry=entry), adj, entry, model, ctx)
     shared_evaluator_pass(key0, ['via:direct'], inputs, adj, n, model, ctx)
+
+
+# -- the same graphs, references written another way -------------------------
+# lazy: the references sit inside lazily evaluated arguments (IF branches,
+# AND conditions); placed: the cells lie at addresses one of which is the
+# textual tail / head of another (sheet names Sales / NetSales, cells B1 /
+# B10), so that a cycle test on the printed path is not an address test.
+PLACEMENTS = {
+    'tail-sheets': ('Sales!B2', 'NetSales!B2', 'GrossNetSales!B2',
+                    'XGrossNetSales!B2'),
+    'head-cells': ('Sheet1!B1', 'Sheet1!B10', 'Sheet1!B100', 'Sheet1!B1000'),
+    'head-sheets': ('S!A1', 'S1!A1', 'S!A11', 'S1!A11'),
+}
+LAZY_VIAS = ('lazy-branch', 'lazy-and', 'lazy-else')
+
+
+def formula_variant(adj_i, i, via, names):
+    if not adj_i:
+        return i + 1
+    terms = []
+    for j in sorted(adj_i):
+        terms.extend([names[j]] * adj_i[j])
+    total = '+'.join(terms)
+    if via == 'placed':
+        return '=' + total
+    if via == 'lazy-branch':
+        return '=IF(TRUE,%s,0)' % total
+    if via == 'lazy-else':
+        return '=IF(FALSE,0,IF(TRUE,%s))' % total
+    if via == 'lazy-and':
+        # leaves are positive numbers: the conditions hold
+        return '=IF(AND(%s),%s,0)' % (
+            ','.join('%s>-1' % t for t in terms), total)
+    raise ValueError(via)
+
+
+def run_variant(via, place, n, base, code, ctx):
+    adj = adj_from_code(code, n, base)
+    names = PLACEMENTS[place][:n] if place else tuple(
+        cell(i) for i in range(n))
+    cells = {names[i]: formula_variant(adj[i], i, via, names)
+             for i in range(n)}
+    key0 = 'C06/%s%s/n=%d/b=%d/g=%d' % (via, '-' + place if place else '',
+                                        n, base, code)
+    inputs = {'kind': 'variant', 'via': via, 'place': place, 'n': n,
+              'base': base, 'code': code}
+    tags = ['via:' + via] + (['place:' + place] if place else [])
+    try:
+        model = lib.compile_dict(cells)
+    except Exception as exc:  # noqa: BLE001
+        ctx.fail(key0 + '/compile', ['compile'] + tags, inputs, 'compiles',
+                 lib.exc_obs(exc))
+        return
+    ctx.count('states')
+    for entry in range(n):
+        judge('%s/entry=%d' % (key0, entry), tags,
+              dict(inputs, entry=entry), adj, entry, model, ctx, None, names)
+    shared_evaluator_pass(key0, tags, inputs, adj, n, model, ctx, cells,
+                          names)
+
+
+# -- ladders: two cells per level, each summing the level below ---------------
+LADDER_D = {'quick': 20, 'thorough': 32}
+
+
+def ladder_model(d, ending):
+    cells = {}
+    for k in range(1, d):
+        rng = 'A%d:B%d' % (k + 1, k + 1)
+        cells['Sheet1!A%d' % k] = '=SUM(%s)' % rng
+        cells['Sheet1!B%d' % k] = '=SUM(%s)+1' % rng
+    bottom = {'unknown-function': '=NOSUCHFUNCTION(1)',
+              'python-error': '=ABS()', 'back-edge': '=A1+1'}[ending]
+    cells['Sheet1!A%d' % d] = bottom
+    cells['Sheet1!B%d' % d] = bottom
+    return cells
+
+
+def run_ladder(ending, dmax, ctx):
+    """The first failing cell decides the outcome: reporting it takes one
+    visit per level, however many paths lead down."""
+    for d in range(2, dmax + 1):
+        key = 'C06/ladder/%s/d=%d' % (ending, d)
+        inputs = {'kind': 'ladder', 'ending': ending, 'd': d}
+        tags = ['ladder', 'ending:' + ending]
+        model = lib.compile_dict(ladder_model(d, ending))
+        t0 = time.time()
+        got, exc = cycle_obs(lib.Evaluator(model).evaluate, 'Sheet1!A1')
+        dt = time.time() - t0
+        lib.clear_caches()
+        ctx.count('transitions')
+        ctx.count('states')
+        if ending == 'back-edge':
+            want, ok = 'cycle-report', got == 'cycle-report'
+        else:
+            want, ok = 'exception, no cycle report', got.startswith('raise:')
+        if got in ('raise:RecursionError', 'raise:MemoryError', 'timeout'):
+            ok = False
+        if not ok:
+            ctx.fail(key, tags + ['outcome'], inputs, want, got, True,
+                     'wall=%.3fs' % dt)
+            breaker()
+            continue
+        ctx.ok(key, got)
+        mlen = len(str(exc)) if exc is not None else 0
+        bound = 400 * d * d
+        ctx.check(key + '#msglen', 'msglen:within-quadratic'
+                  if mlen <= bound else 'msglen:exceeds-quadratic',
+                  'msglen:within-quadratic', tags + ['resource:message'],
+                  inputs, True, 'len=%d bound=%d' % (mlen, bound))
 
 
 RANGE_OPTS_CACHE = {}
@@ -460,6 +576,25 @@ def plan(tier):
     for ending in ('unknown-function', 'python-error', 'back-edge', 'value'):
         shards.append({'kind': 'chain', 'ending': ending,
                        'dmax': CHAIN_D[tier], 'weight': 50})
+    for ending in ('unknown-function', 'python-error', 'back-edge'):
+        shards.append({'kind': 'ladder', 'ending': ending,
+                       'dmax': LADDER_D[tier], 'weight': 30})
+    # variants: (via, placement, n, base)
+    variants = []
+    for via in LAZY_VIAS:
+        variants += [(via, None, 2, 3), (via, None, 3, 2)]
+        if tier == 'thorough':
+            variants += [(via, None, 3, 3)]
+    for place in sorted(PLACEMENTS):
+        variants += [('placed', place, 2, 3), ('placed', place, 3, 2)]
+        if tier == 'thorough':
+            variants += [('placed', place, 4, 2)]
+    for via, place, n, base in variants:
+        total = base ** (n * n)
+        for lo in range(0, total, 256):
+            shards.append({'kind': 'variant', 'via': via, 'place': place,
+                           'n': n, 'base': base, 'lo': lo,
+                           'hi': min(total, lo + 256)})
     return shards
 
 
@@ -485,6 +620,22 @@ def _run_shard(shard, ctx):
                 for i in range(shard['n'])}})
     elif shard['kind'] == 'deep':
         run_deep(shard['ending'], ctx)
+    elif shard['kind'] == 'ladder':
+        run_ladder(shard['ending'], shard['dmax'], ctx)
+        ctx.sample({'ladder': shard['ending'],
+                    'cells_d3': ladder_model(3, shard['ending'])})
+    elif shard['kind'] == 'variant':
+        for code in range(shard['lo'], shard['hi']):
+            run_variant(shard['via'], shard['place'], shard['n'],
+                        shard['base'], code, ctx)
+        if shard['lo'] == 0:
+            adj = adj_from_code(shard['hi'] - 1, shard['n'], shard['base'])
+            names = PLACEMENTS[shard['place']] if shard['place'] else \
+                tuple(cell(i) for i in range(shard['n']))
+            ctx.sample({'via': shard['via'], 'place': shard['place'],
+                        'cells': {names[i]: formula_variant(
+                            adj[i], i, shard['via'], names)
+                            for i in range(shard['n'])}})
     elif shard['kind'] == 'sparse5':
         combos = itertools.islice(
             itertools.combinations(range(25), shard['k']),
@@ -521,6 +672,11 @@ def _replay(inputs, ctx):
         run_deep(inputs['ending'], ctx)
     elif k == 'direct':
         run_graph('direct', inputs['n'], inputs['base'], inputs['code'], ctx)
+    elif k == 'variant':
+        run_variant(inputs['via'], inputs['place'], inputs['n'],
+                    inputs['base'], inputs['code'], ctx)
+    elif k == 'ladder':
+        run_ladder(inputs['ending'], inputs['d'], ctx)
     elif k == 'range':
         run_rangegraph(inputs['n'], tuple(inputs['choice']), ctx)
     else:
